@@ -250,6 +250,7 @@ func loadCorpus() {
 		corpusList = append(corpusList, inlineCorpus()...)
 		corpusList = append(corpusList, pipeOuterCorpus()...)
 		corpusList = append(corpusList, budgetCorpus()...)
+		corpusList = append(corpusList, arityCorpus()...)
 		for i, d := range bases {
 			vs := objStmVariants(fmt.Sprintf("base%d", i), d)
 			corpusList = append(corpusList, vs...)
@@ -824,9 +825,9 @@ func main() {
 			what := map[string]string{
 				"timeout": fmt.Sprintf("no return after %.1f s of CPU time (limit %s for %d bytes) and %.1f s of wall time (guard %s), in 3 of 3 fresh processes run one after the other",
 					r.CPUMillis/1000, hangCPU(l.Len), l.Len, r.Millis/1000, hangWall),
-				"leak": fmt.Sprintf("goroutines %d -> %d after the call returned; left over and parked (none runnable): %s (3 of 3 fresh processes)", r.GorBefore, r.GorAfter, trunc(r.Leaked, 200)),
-				"slow": fmt.Sprintf("%.0f ms of CPU time for %d bytes, budget %.0f ms; TotalAlloc %d (3 of 3 fresh processes over budget or hanging)", r.CPUMillis, l.Len, r.BudgetTime, r.Alloc),
-				"alloc":   fmt.Sprintf("TotalAlloc %d bytes for %d input bytes, budget %d (3 of 3 fresh processes over budget or hanging)", r.Alloc, l.Len, r.BudgetMem),
+				"leak":  fmt.Sprintf("goroutines %d -> %d after the call returned; left over and parked (none runnable): %s (3 of 3 fresh processes)", r.GorBefore, r.GorAfter, trunc(r.Leaked, 200)),
+				"slow":  fmt.Sprintf("%.0f ms of CPU time for %d bytes, budget %.0f ms; TotalAlloc %d (3 of 3 fresh processes over budget or hanging)", r.CPUMillis, l.Len, r.BudgetTime, r.Alloc),
+				"alloc": fmt.Sprintf("TotalAlloc %d bytes for %d input bytes, budget %d (3 of 3 fresh processes over budget or hanging)", r.Alloc, l.Len, r.BudgetMem),
 			}[r.Status]
 			e.Fail(sig, what, failCase(e, l))
 		}
@@ -907,7 +908,8 @@ func panicSite(stack string) string {
 	lines := strings.Split(stack, "\n")
 	for _, ln := range lines {
 		ln = strings.TrimSpace(ln)
-		if ln == "" || strings.HasPrefix(ln, "panic(") || strings.HasPrefix(ln, "runtime.") || strings.HasPrefix(ln, "/") || strings.HasPrefix(ln, "goroutine") {
+		if ln == "" || strings.HasPrefix(ln, "panic(") || strings.HasPrefix(ln, "runtime.") || strings.HasPrefix(ln, "/") ||
+			strings.HasPrefix(ln, "goroutine") || strings.Contains(ln, "/runtime/") || strings.Contains(ln, "runtime/panic.go") {
 			continue
 		}
 		if i := strings.LastIndex(ln, "("); i > 0 {
